@@ -29,7 +29,7 @@ func propC01(c *Ctx) propInfo {
 	c.floor("E7.descriptors", 5)
 	c.floor("E1.P6-forward-refs", 1)
 	return propInfo{
-		explanation: "Static structural clauses of C01 (DESIGN.md §4 C01): with the CRC flag set every success exit of the header parser lies behind the equality of the stored and the computed CRC32C (Castagnoli on both sides, computed over everything before the trailer); the prefix the writer emits is one the reader accepts and the three prefixes equal the specification; a cell is appended to the output list only after a miss in the hash-keyed map and its position is recorded under the same hash; the writer's header field sequence (flags, size, off_bytes, cells, roots, absent, tot_cells_size, root list, optional index) and the reader's consumption sequence agree on order and on the width role (size / off_bytes) of each field, the three flag bits are tested where they are written, and the index is halved exactly under the cache-bits flag; descriptor bytes place refs / exotic / level mask where the reader extracts them, the writer passes the cell's level mask (not its level) to the representation; the parser's depth limit equals the hasher's and the serialiser's; references are linked strictly forward. Decides these necessary conditions, not equality of the parsed DAG, canonical bytes or the reordering heuristic.",
+		explanation: "Static structural clauses of C01 (DESIGN.md §4 C01): with the CRC flag set every success exit of the header parser lies behind the equality of the stored and the computed CRC32C (Castagnoli on both sides, computed over everything before the trailer); the prefix the writer emits is one the reader accepts and the three prefixes equal the specification; a cell is appended to the output list only after a miss in the hash-keyed map and its position is recorded under the same hash; the writer's header field sequence (flags, size, off_bytes, cells, roots, absent, tot_cells_size, root list, optional index) and the reader's consumption sequence agree on order and on the width role (size / off_bytes) of each field, the three flag bits are tested where they are written, and the index is halved exactly under the cache-bits flag; descriptor bytes place refs / exotic / level mask where the reader extracts them, the writer passes the cell's level mask (not its level) to the representation; the parser's depth limit equals the hasher's and the serialiser's; references are linked strictly forward. Decides these necessary conditions, not equality of the parsed DAG, canonical bytes or the reordering heuristic. Also: the SIZE/OFF widths are computed from the values written into the cells / tot_cells_size fields, and the stored-hash count is popcount(mask)+1 on the parser side as in the hasher.",
 	}
 }
 
